@@ -124,6 +124,18 @@ def concretise(rng, hist, monotone):
     """give time stamps: monotone histories move forward at every change; others may also go back or stand still"""
     t = 10
     ops = []
+    if monotone == 'distinct':
+        # every change gives the file a time stamp it never had before in this history — later or *earlier* (a roll-back that
+        # preserves time stamps, a restored backup, a clock correction): a modification all the same
+        pool = [x for x in rng.sample(range(1, 80), 40) if x != 10]
+        for o in hist:
+            if o[0] == 'modify':
+                ops.append(['modify', o[1], pool.pop()])
+            elif o[0] == 'utime':
+                ops.append(['utime', pool.pop()])
+            else:
+                ops.append(list(o))
+        return ops
     for o in hist:
         if o[0] == 'modify':
             t = t + rng.randint(1, 3) if monotone else rng.choice([t, t + 1, max(1, t - 1), t + 2])
@@ -239,7 +251,7 @@ def oracle(ctx):
         for h in hs:
             if any(o[0] == 'write' for o in h):
                 continue
-            ops = concretise(ctx.rng, h, monotone=True)
+            ops = concretise(ctx.rng, h, monotone=True if ctx.rng.random() < 0.6 else 'distinct')
             obs, cooks = run_real(d, True, ops)
             ctx.count('evaluations')
             cur = 0
